@@ -66,6 +66,13 @@ def build_cases(rng, tier):
         if i % 3 == 0:
             focus = {'edit', 'more'}
         c = streamprog.gen_stream_case(r, "e%d" % i, focus, backend=be, flex_opts=opts)
+        if i % 6 == 5:
+            # 'a destroyed non-reentrant scanner can be used again as if fresh': several sessions with yylex_destroy() between
+            # them, the start-condition stack in use (it may be left non-empty by a session)
+            c = streamprog.gen_stream_case(r, "e%d" % i, {'stack', 'eof', 'post'}, backend='nr', flex_opts=opts)
+            be = 'nr'
+            for rn in (c.get('runs') or []):
+                rn['mode'] = 'd'
         c['kind'] = 'stream'
         sizes = [[], ["-DYY_BUF_SIZE=16"], ["-DYY_BUF_SIZE=3"], ["-DYY_BUF_SIZE=64"]] if i % 3 else [["-DYY_BUF_SIZE=3"], ["-DYY_BUF_SIZE=8"], ["-DYY_BUF_SIZE=2"]]
         c['cc_extra'] = SAN + (r.pick(sizes) if be != 'c99' else [])
